@@ -50,17 +50,28 @@ Section AdmittedGeos.
     end.
   Definition by_impact_desc (l : list nat) : list nat := fold_right ins_by_impact [] l.
 
-  (* n_geos_max keeps every must-include geo and fills the remaining places with the
-     other geos in decreasing order of impact (:116-126) *)
+  (* the pandas selections of geos_too_large / geos_over_budget / data.assignable / geos_must_include as sets of
+     positions, and geo_req_impact.sort_values(ascending=False).index *)
+  Definition positions : set := seq 0 (length gs).
+  Definition too_large_set : set := filter too_large positions.
+  Definition over_budget_set : set := filter over_budget positions.
+  Definition assignable_set : set := filter assignable positions.
+  Definition must_include_set : set := filter must_include positions.
+  Definition by_impact_all : set := by_impact_desc positions.
+
+  (* geos_within_constraints (:105-126), statement by statement: n_geos_max keeps every must-include geo and fills the
+     remaining places with the other admitted geos in decreasing order of impact *)
   Definition within_constraints : set :=
+    let geos_exceed_size := union too_large_set over_budget_set in
+    let geos := union (diff assignable_set geos_exceed_size) must_include_set in
     match p_n_geos_max par with
+    | None => geos
     | Some m =>
-        if (m <? Z.of_nat (length admitted0))
-        then let must := filter must_include admitted0 in
-             let others := filter (fun i => negb (must_include i)) (by_impact_desc admitted0) in
-             must ++ firstn (Z.to_nat (Z.max 0 (m - Z.of_nat (length must)))) others
-        else admitted0
-    | None => admitted0
+        if (Z.of_nat (length geos) >? m)
+        then let geos_in_order := filter (fun g => mem g geos && negb (mem g must_include_set)) by_impact_all in
+             let n_others := Z.max 0 (m - Z.of_nat (length must_include_set)) in
+             union must_include_set (firstn (Z.to_nat n_others) geos_in_order)
+        else geos
     end.
   (* geo_index: admitted geos in data.df order; positions into gs *)
   Definition geo_index : list nat := filter (fun i => mem i within_constraints) (seq 0 (length gs)).
